@@ -21,15 +21,13 @@ def vecU8ToBytesLe (l : List UInt8) : List UInt8 := normalizeUsize l.length ++ l
 def readU64 (input : List UInt8) : Outcome Nat :=
   if input.length < 8 then .panic else .ok (leNat (input.take 8))
 
-/-- `bytes_le_to_vec_u8`: returns the bytes and the number of bytes read. `input[8..8+len]` panics
-    when out of range (also when `8 + len` wraps in release builds: start > end). -/
+/-- `bytes_le_to_vec_u8` (after the `fix:` commit): `Err` when shorter than the header or when the
+    declared length exceeds what follows; returns the bytes and the number of bytes read -/
 def bytesLeToVecU8 (input : List UInt8) : Outcome (List UInt8 × Nat) :=
-  match readU64 input with
-  | .ok len =>
-    if (8 + len) % U64 < 8 ∨ input.length < 8 + len then .panic
-    else .ok ((input.drop 8).take len, 8 + len)
-  | .err => .err
-  | .panic => .panic
+  if input.length < 8 then .err else
+  let len := leNat (input.take 8)
+  if len > input.length - 8 then .err
+  else .ok ((input.drop 8).take len, 8 + len)
 
 /-- elements `i = 0 … n-1` of `bytes_le_to_vec_fr`'s loop: `input[8+32i .. 8+32(i+1)]` -/
 def readFrs (input : List UInt8) : Nat → Nat → List Nat → Outcome (List Nat)
@@ -38,18 +36,14 @@ def readFrs (input : List UInt8) : Nat → Nat → List Nat → Outcome (List Na
     if input.length < 8 + 32 * (i + 1) then .panic
     else readFrs input n (i + 1) ((leNat ((input.drop (8 + 32 * i)).take 32) % P) :: acc)
 
-/-- `bytes_le_to_vec_fr`. The loop runs `len` times but panics at the first element that is out
-    of range, so at most `input.length / 32 + 1` iterations are ever executed. -/
+/-- `bytes_le_to_vec_fr` (after the `fix:` commit): `Err` when shorter than the header or when the
+    declared count exceeds the number of whole elements that follow -/
 def bytesLeToVecFr (input : List UInt8) : Outcome (List Nat × Nat) :=
-  match readU64 input with
-  | .ok len =>
-    let avail := (input.length - 8) / 32
-    if len ≤ avail then
-      match readFrs input len 0 [] with
-      | .ok l => .ok (l, 8 + 32 * len)
-      | .err => .err
-      | .panic => .panic
-    else .panic
+  if input.length < 8 then .err else
+  let len := leNat (input.take 8)
+  if len > (input.length - 8) / 32 then .err else
+  match readFrs input len 0 [] with
+  | .ok l => .ok (l, 8 + 32 * len)
   | .err => .err
   | .panic => .panic
 
